@@ -97,7 +97,10 @@ def case_batch(acc, batch):
         defs = workflows()[wname]
         prot = dict(protect_variants(defs))[plabel]
         names = [d[0] for d in defs]
-        wf = W.Workflow([W.T(n, i, o, spec=f"echo {n}\n", protect=prot.get(n)) for n, i, o in defs])
+        late = where == "late-protect"
+        if late:
+            where = "proj"
+        wf = W.Workflow([W.T(n, i, o, spec=f"echo {n}\n", protect=prot.get(n), how="target_late_protect" if (late and prot.get(n)) else "target") for n, i, o in defs])
         declared = sorted({p for t in wf.targets for p in t.flat("inputs") + t.flat("outputs")})
         files = {p: (k + 1, "content:" + p) for k, p in enumerate(declared) if p not in missing and p not in DIR_OUTPUTS}
         if wname == "diroutput":
@@ -128,7 +131,7 @@ def case_batch(acc, batch):
                 after = s.snapshot()
                 journal = [e for e in s.sim.s["journal"] if e["op"] in ("submit", "cancel")]
             acc.extra["invocations"] += 1
-            case = dict(wf=wname, protect=plabel, missing=missing, args=args, answer=ans, symlinked=symlinked, where=where)
+            case = dict(wf=wname, protect=plabel, missing=missing, args=args, answer=ans, symlinked=symlinked, where="late-protect" if late else where)
             declined = ans in ("n\n", "")
             sel, exp_removed = expected(defs, prot, {p for p in files if p in declared}, allf, tg)
             exp_files = dict(w0.files)
@@ -180,6 +183,9 @@ def run(ctx):
             if "/" not in o:
                 items.append((wname, "none", (), o))
     for wname in workflows():
+        for plabel, pmap_ in protect_variants(workflows()[wname]):
+            if pmap_ and (not quick or plabel in ("all", "foreign") or plabel.endswith("sp0") or plabel.endswith("sp2")):
+                items.append((wname, plabel, (), None, "late-protect"))
         for where in ("subdir", "subdir-f"):
             for plabel in ("none", "all") if quick else [l for l, _ in protect_variants(workflows()[wname])]:
                 items.append((wname, plabel, (), None, where))
